@@ -9,8 +9,44 @@ import Model.LRU
 -/
 namespace Prepare
 
-/-- prepared_cache.go keyFor: plain concatenation -/
-def keyFor (hostID keyspace stmt : List Char) : List Char := hostID ++ keyspace ++ stmt
+/-- prepared_cache.go keyFor: `return hostID + keyspace + statement` — plain concatenation of the three Go
+    strings (byte strings; `α := UInt8` in the driver's `keyfor`/`keypair` ops, `Char` in the older ops), no
+    separator, no length, no normalisation of any kind. -/
+def keyFor {α : Type} (hostID keyspace stmt : List α) : List α := hostID ++ keyspace ++ stmt
+
+/-- what a statement IS for the cache: (host id, the connection's current keyspace, statement text) -/
+structure Triple where
+  host : List UInt8
+  ks   : List UInt8
+  text : List UInt8
+  deriving DecidableEq, Repr
+
+/-- the cache key the code computes for a triple -/
+def keyOf (t : Triple) : List UInt8 := keyFor t.host t.ks t.text
+
+/-- MODEL (the code that exists): two triples land on one cache entry iff their keys are equal strings -/
+def sameKey (t₁ t₂ : Triple) : Bool := decide (keyOf t₁ = keyOf t₂)
+
+/-- SPECIFICATION: one cache entry per statement — two triples share an entry iff they are the same triple -/
+def sameStmt (t₁ t₂ : Triple) : Bool := decide (t₁ = t₂)
+
+/-- the condition under which the code meets the specification (KF-C14-1 outside it): the two host ids have
+    the same length and the two keyspaces have the same length -/
+def lensAgree (t₁ t₂ : Triple) : Bool :=
+  t₁.host.length == t₂.host.length && t₁.ks.length == t₂.ks.length
+
+/-- the excluded class of op `keypair` (known finding KF-C14-1), decided WITHOUT the key function: the plain
+    concatenations of the two triples are equal although the lengths do not agree -/
+def excluded (t₁ t₂ : Triple) : Bool :=
+  !lensAgree t₁ t₂ && decide (t₁.host ++ t₁.ks ++ t₁.text = t₂.host ++ t₂.ks ++ t₂.text)
+
+/-- decimal digits of n as bytes (Go `strconv.Itoa` on a length) -/
+def dec (n : Nat) : List UInt8 := (Nat.toDigits 10 n).map fun c => UInt8.ofNat c.toNat
+
+/-- the key function of the proposed fix (props/C14.fix-1.diff):
+    `strconv.Itoa(len(hostID)) + "/" + strconv.Itoa(len(keyspace)) + "/" + hostID + keyspace + statement` -/
+def keyForFixed (hostID keyspace stmt : List UInt8) : List UInt8 :=
+  dec hostID.length ++ [0x2f] ++ (dec keyspace.length ++ [0x2f] ++ (hostID ++ keyspace ++ stmt))
 
 inductive Status
   | inflight
@@ -103,6 +139,50 @@ def removals (log : List (Event κ)) (k : κ) : Nat := log.countP (Event.isRemov
 
 /-- what a caller holding flight `f` returns once it is done -/
 def outcome (s : State κ) (f : Nat) : Option Status := (s.flights[f]?).map (·.status)
+
+/-! ### statement level
+
+The cache is keyed by `keyOf t` (the string `keyFor` computes), but what a flight's goroutine PREPAREs is the
+statement TEXT of the caller that published the flight (`stmt` captured by the closure in prepareStatement), on
+that caller's connection (host, current keyspace): `sent[f]`. An executor of triple t that finds flight f under
+`keyOf t` EXECUTEs with the id the server returned for `sent[f]`. -/
+
+inductive TAction
+  | lookup (t : Triple)                            -- prepareStatement(t.text) on a connection to t.host with keyspace t.ks
+  | complete (f : Nat) (r : Option (List UInt8))   -- the flight's goroutine got the answer to PREPARE sent[f].text
+  | unprepared (t : Triple) (id : List UInt8)      -- UNPREPARED for an execution of t → evictPreparedID(keyOf t, id)
+
+def TAction.key : TAction → Action (List UInt8)
+  | .lookup t => .lookup (keyOf t)
+  | .complete f r => .complete f r
+  | .unprepared t id => .unprepared (keyOf t) id
+
+structure TState where
+  s    : State (List UInt8)
+  /-- sent[f]: the triple whose text flight f's goroutine PREPAREs -/
+  sent : List Triple
+
+def tinit (cap : Int) : TState := { s := init cap, sent := [] }
+
+/-- a lookup that published a new flight records the publisher's triple -/
+def TAction.sentAfter (a : TAction) (sent : List Triple) (grew : Bool) : List Triple :=
+  match a with
+  | .lookup t => if grew then sent ++ [t] else sent
+  | _ => sent
+
+def tstep (x : TState) (a : TAction) : Option TState :=
+  match step x.s a.key with
+  | none => none
+  | some s' => some { s := s', sent := a.sentAfter x.sent (decide (s'.flights.length ≠ x.s.flights.length)) }
+
+def trun (x : TState) : List TAction → Option TState
+  | [] => some x
+  | a :: as => match tstep x a with
+    | none => none
+    | some x' => trun x' as
+
+/-- the flight an executor of t is handed by `execIfMissing` (if cached) -/
+def TState.flightOf (x : TState) (t : Triple) : Option Nat := x.s.cache.find (keyOf t)
 
 end Prepare
 
